@@ -27,4 +27,11 @@ TEXT = {
         "design_ref": "DESIGN.md section 2, C16",
         "level_note": "Trusted base: hlref.PrivilegeNames / hlref.Access bit numbering (independent of mobius), yaml.v3 generic parser, rapid.",
     },
+    "C15": {
+        "engine": "E1 bubble world",
+        "technique": "model-based stateful property testing (rapid state machine) through the protocol against a reference account map; login attempts, list-users, directory contents and a fresh manager as views",
+        "level_text": "Generated histories of account edits through all four editing requests, with restarts; after every step the three views the property names (who can log in, what administrators see, what is on disk) are compared with one model. Sampled histories, bounded length (~30 steps).",
+        "design_ref": "DESIGN.md section 2, C15",
+        "level_note": "Trusted base: hlref, hlsim, rapid, synctest; bcrypt at MinCost as shipped. One known finding (names with a leading newline, yaml.v3) is excluded from the generator and decided by its own test.",
+    },
 }
